@@ -21,7 +21,11 @@ let () =
     while true do
       let line = input_line stdin in
       let w = Array.of_list (words line) in
-      if Array.length w > 0 then begin
+      if Array.length w > 0 && w.(0) = "ERRBITS" then begin
+        (* set_error_bits(code): errorCode |= code | COLVARS_ERROR, from one thread per code *)
+        let codes = List.map (fun s -> Z.coq_lor (z_of_int (int_of_string s)) (z_of_int 1)) (List.tl (Array.to_list w)) in
+        Printf.printf "ERRBITS %d\n" (int_of_z (or_codes codes))
+      end else if Array.length w > 0 then begin
         let p = ref 1 in
         let next () = let s = w.(!p) in Stdlib.incr p; s in
         let ni () = int_of_string (next ()) in
